@@ -337,6 +337,7 @@ func runC17(r *core.Run) {
 		s.Transitions.Store(s.Evals.Load())
 		s.Done()
 	}
+	runC17ZeroWidth(r)
 	soup := []string{"|", "-", ":", "a", " ", "\n", "\\|", "`", "> ", "- "}
 	for _, cn := range []string{"table", "gfm+align=attr"} {
 		cfg := core.MustCfg(cn)
@@ -398,6 +399,95 @@ func c17Predict(s *core.Sub, cv *core.Conv, doc []byte, h, d int, al []int, ws [
 				}
 			}
 		}
+	}
+}
+
+// runC17ZeroWidth: rows whose cells may have zero width ("||"). The statement does not say whether a zero-width cell
+// counts as a cell, so no shape is predicted; only the generic clauses are judged (one header row, every body row as
+// wide as the header, consistent alignment, AST row widths equal to the column count).
+func runC17ZeroWidth(r *core.Run) {
+	maxBody := core.Pick(r, 1, 2)
+	var rows [][]string // every cell vector of width 0..4 over {"a", ""}
+	for w := 0; w <= 4; w++ {
+		for m := 0; m < 1<<w; m++ {
+			c := make([]string, w)
+			for i := range c {
+				if m>>i&1 == 1 {
+					c[i] = "a"
+				}
+			}
+			rows = append(rows, c)
+		}
+	}
+	spell := func(cells []string, lead, trail bool) (string, bool) {
+		s := strings.Join(cells, "|")
+		if lead {
+			s = "|" + s
+		}
+		if trail {
+			s += "|"
+		}
+		return s, strings.Contains(s, "|") && strings.TrimSpace(s) != ""
+	}
+	var lines []string // every spelled row
+	seen := map[string]bool{}
+	for _, c := range rows {
+		for p := 0; p < 4; p++ {
+			if l, ok := spell(c, p&1 != 0, p&2 != 0); ok && !seen[l] {
+				seen[l] = true
+				lines = append(lines, l)
+			}
+		}
+	}
+	var delims []string
+	for d := 1; d <= 3; d++ {
+		c := make([]string, d)
+		for i := range c {
+			c[i] = []string{"-", ":-", "-:"}[i%3]
+		}
+		for p := 0; p < 4; p++ {
+			if l, ok := spell(c, p&1 != 0, p&2 != 0); ok {
+				delims = append(delims, l)
+			}
+		}
+	}
+	for _, cn := range []string{"table+align=attr", "gfm+align=style"} {
+		cfg := core.MustCfg(cn)
+		s := r.Sub("zero-width/"+cn, fmt.Sprintf("header row × delimiter row (1..3 cells, every leading/trailing pipe spelling) × ≤%d body rows, rows being every cell vector of width 0..4 over {\"a\", zero-width} in every leading/trailing pipe spelling (%d spelled rows), at top level and in a block quote, under %s; generic clauses only (rectangular, one header row, alignment consistent, AST row widths)", maxBody, len(lines), cn))
+		s.Bound = fmt.Sprintf("%d rows × %d delimiters × body ≤%d", len(lines), len(delims), maxBody)
+		core.ForEachIndex(len(lines), core.Workers(), func(w int) func(int) {
+			cv := core.NewConv(cfg)
+			return func(hi int) {
+				for _, d := range delims {
+					bodies := [][]string{nil}
+					for _, b := range lines {
+						bodies = append(bodies, []string{b})
+					}
+					if maxBody >= 2 {
+						for _, b := range lines {
+							for _, b2 := range lines[:len(lines)/4] {
+								bodies = append(bodies, []string{b, b2})
+							}
+						}
+					}
+					for _, body := range bodies {
+						for _, placement := range []int{0, 2} {
+							doc := []byte(place(append([]string{lines[hi], d}, body...), placement))
+							h, _ := c17Generic(s, cv, doc)
+							s.States.Add(1)
+							if h != 0 {
+								s.Distinct(h)
+							}
+							if s.States.Load()%40000 == 1 {
+								s.AddSample(core.Q(doc))
+							}
+						}
+					}
+				}
+			}
+		}, r.Expired)
+		s.Transitions.Store(s.Evals.Load())
+		s.Done()
 	}
 }
 
